@@ -228,6 +228,10 @@ func c03plainKeys() {
 	for _, t := range []string{"true", "True", "TRUE", "false", "False"} {
 		ks = append(ks, kc{t, strings.ToLower(t)})
 	}
+	// everything else stays as written: date- and time-shaped keys, versions, plain words
+	for _, t := range []string{"2024-02-01", "2001-12-14t21:59:43.10-05:00", "2002-1-2", "v1.2.3", "1.2.3", "plain", "a.b", "1-2"} {
+		ks = append(ks, kc{t, t})
+	}
 	for _, k := range ks {
 		for ti, tmpl := range []string{"%s: topv\nsteps: []\n", "steps:\n- command: c\n  %s: stepv\n", "steps:\n- command: c\n  agents:\n    %s: nestedv\n", "steps:\n- wait: ~\n  %s: waitv\n"} {
 			text := fmt.Sprintf(tmpl, k.text)
